@@ -1,6 +1,14 @@
 import TinysetModel.Proofs.Tiny.Ascending
 import TinysetModel.Proofs.Consts
-/-! C10 — small sets of small numbers live in one machine word with no heap memory. -/
+import TinysetModel.Proofs.InlineSpec
+import TinysetModel.Proofs.Demo
+/-! C10 — small sets of small numbers live in one machine word with no heap memory.
+
+First part: the inline codec alone (`TinyC`, `Model/Tiny.lean`).  Second part: the same at the level of whole
+sets (`SC.fromIter` = collect(), the `SC.insert` loop, `SC.remove`): the result is `Rp.stack t` — one tagged
+machine word, `capacity = 0`, `mem_used = 8`, no block — the RNG state is returned unchanged (nothing is drawn,
+nothing is allocated), for every RNG oracle, state and fuel.  `InBudget codec v` is the documented budget:
+`v` non-empty, at most 7 (6) values, strictly increasing, first value and gaps within the widths of the table. -/
 namespace C10
 open TinyC SC
 
@@ -39,4 +47,98 @@ theorem widths_antitone_u32 : ∀ k, k < 6 → ∀ i, i < k →
 theorem inline_mem_used (c : Cfg) (t : T) : blockBytes c (.stack t) = 0 ∧ memUsed c (.stack t) = 8 ∧
     capacity (.stack t) = 0 := ⟨rfl, rfl, rfl⟩
 
+/-! ### whole sets: collect(), ascending insertion, removal -/
+
+/-- collect() (SetU64 / Set64 / SetUsize): if the distinct items, sorted, are within the budget, the result is
+inline with exactly those members; no heap block, `mem_used` is one word, the RNG state `d` is untouched -/
+theorem collect_is_inline_u64 {D : Type} (g : Rng D) (fuel : Nat) (xs : List Nat)
+    (hb : InBudget codec64 (sortDedup xs)) (d : D) :
+    ∃ t, fromIter cfg64 g fuel xs d = .ok (.stack t, d) ∧ t.members codec64 = sortDedup xs ∧
+      t.sz = (sortDedup xs).length ∧
+      capacity (.stack t) = 0 ∧ memUsed cfg64 (.stack t) = 8 ∧ blockBytes cfg64 (.stack t) = 0 :=
+  collect_inline_rp64 g fuel xs hb d
+/-- collect() (SetU32) -/
+theorem collect_is_inline_u32 {D : Type} (g : Rng D) (fuel : Nat) (xs : List Nat)
+    (hb : InBudget codec32 (sortDedup xs)) (d : D) :
+    ∃ t, fromIter cfg32 g fuel xs d = .ok (.stack t, d) ∧ t.members codec32 = sortDedup xs ∧
+      t.sz = (sortDedup xs).length ∧
+      capacity (.stack t) = 0 ∧ memUsed cfg32 (.stack t) = 8 ∧ blockBytes cfg32 (.stack t) = 0 :=
+  collect_inline_rp32 g fuel xs hb d
+/-- … and that inline value is well formed and has the items of `xs` as members (any configuration) -/
+theorem collect_is_inline_wf {c : Cfg} {D : Type} (ok : CfgOK c) (g : Rng D) (fuel : Nat) (xs : List Nat)
+    (hb : InBudget c.codec (sortDedup xs)) (hrange : ∀ x ∈ xs, x < 2 ^ c.W) (d : D) :
+    ∃ t, fromIter c g fuel xs d = .ok (.stack t, d) ∧ StackWF c t ∧ ∀ x, x ∈ elems c (.stack t) ↔ x ∈ xs :=
+  collect_inline_rp_wf ok g fuel xs hb hrange d
+/-- what `sortDedup xs` is: the items of `xs` in strictly increasing order -/
+theorem sortDedup_is (xs : List Nat) : (sortDedup xs).Pairwise (· < ·) ∧ ∀ x, x ∈ sortDedup xs ↔ x ∈ xs := sortDedup_spec xs
+
+/-- ascending insertion (SetU64): inserting the members of an in-budget set `v` in ascending order into `new()`
+is inline after EVERY step `k` (the first `k` members), and no step draws from the RNG -/
+theorem ascending_is_inline_u64 {D : Type} (g : Rng D) (fuel : Nat) (v : List Nat) (hb : InBudget codec64 v) (d : D) :
+    ∀ k, k ≤ v.length → ∃ r, insertAll (SC.insert cfg64 g (fuel + 1)) .empty (v.take k) d = .ok (r, d) ∧
+      (k = 0 → r = .empty) ∧ (0 < k → ∃ t, r = .stack t ∧ t.sz = k ∧ t.members codec64 = v.take k) :=
+  ascending_inline_rp64 g fuel v hb d
+/-- ascending insertion (SetU32) -/
+theorem ascending_is_inline_u32 {D : Type} (g : Rng D) (fuel : Nat) (v : List Nat) (hb : InBudget codec32 v) (d : D) :
+    ∀ k, k ≤ v.length → ∃ r, insertAll (SC.insert cfg32 g (fuel + 1)) .empty (v.take k) d = .ok (r, d) ∧
+      (k = 0 → r = .empty) ∧ (0 < k → ∃ t, r = .stack t ∧ t.sz = k ∧ t.members codec32 = v.take k) :=
+  ascending_inline_rp32 g fuel v hb d
+/-- the final state of the loop: the whole set in one word, `capacity = 0`, `mem_used = 8` -/
+theorem ascending_final_u64 {D : Type} (g : Rng D) (fuel : Nat) (v : List Nat) (hb : InBudget codec64 v) (d : D) :
+    ∃ t, insertAll (SC.insert cfg64 g (fuel + 1)) .empty v d = .ok (.stack t, d) ∧ t.sz = v.length ∧
+      t.members codec64 = v ∧ capacity (.stack t) = 0 ∧ memUsed cfg64 (.stack t) = 8 :=
+  ascending_inline_all cfg64_ok widthsAntitone64 g fuel v hb d
+theorem ascending_final_u32 {D : Type} (g : Rng D) (fuel : Nat) (v : List Nat) (hb : InBudget codec32 v) (d : D) :
+    ∃ t, insertAll (SC.insert cfg32 g (fuel + 1)) .empty v d = .ok (.stack t, d) ∧ t.sz = v.length ∧
+      t.members codec32 = v ∧ capacity (.stack t) = 0 ∧ memUsed cfg32 (.stack t) = 8 :=
+  ascending_inline_all cfg32_ok widthsAntitone32 g fuel v hb d
+
+/-- removal: removing a member of an inline set, when what remains is within budget, gives an inline set with
+exactly the remaining members; nothing is drawn -/
+theorem remove_stays_inline_u64 {D : Type} (g : Rng D) (fuel : Nat) {t : T} (wf : StackWF cfg64 t) (e : Nat)
+    (hmem : e ∈ t.members codec64) (hb : InBudget codec64 ((t.members codec64).filter (· ≠ e))) (d : D) :
+    ∃ t', SC.remove cfg64 g fuel (.stack t) e d = .ok ((.stack t', true), d) ∧
+      t'.members codec64 = (t.members codec64).filter (· ≠ e) ∧
+      t'.sz = ((t.members codec64).filter (· ≠ e)).length :=
+  SC.remove_stays_inline cfg64_ok g fuel wf e hmem hb d
+theorem remove_stays_inline_u32 {D : Type} (g : Rng D) (fuel : Nat) {t : T} (wf : StackWF cfg32 t) (e : Nat)
+    (hmem : e ∈ t.members codec32) (hb : InBudget codec32 ((t.members codec32).filter (· ≠ e))) (d : D) :
+    ∃ t', SC.remove cfg32 g fuel (.stack t) e d = .ok ((.stack t', true), d) ∧
+      t'.members codec32 = (t.members codec32).filter (· ≠ e) ∧
+      t'.sz = ((t.members codec32).filter (· ≠ e)).length :=
+  SC.remove_stays_inline cfg32_ok g fuel wf e hmem hb d
+/-- removing the only member gives the empty word -/
+theorem remove_only_member_u64 {D : Type} (g : Rng D) (fuel : Nat) {t : T} (wf : StackWF cfg64 t) (e : Nat)
+    (hm : t.members codec64 = [e]) (d : D) : SC.remove cfg64 g fuel (.stack t) e d = .ok ((.empty, true), d) :=
+  SC.remove_only_member cfg64_ok g fuel wf e hm d
+theorem remove_only_member_u32 {D : Type} (g : Rng D) (fuel : Nat) {t : T} (wf : StackWF cfg32 t) (e : Nat)
+    (hm : t.members codec32 = [e]) (d : D) : SC.remove cfg32 g fuel (.stack t) e d = .ok ((.empty, true), d) :=
+  SC.remove_only_member cfg32_ok g fuel wf e hm d
+
+/-- the empty set and every inline set are one word: `mem_used = 8`, `capacity = 0` -/
+theorem one_word (c : Cfg) (t : T) : memUsed c .empty = 8 ∧ capacity .empty = 0 ∧ memUsed c (.stack t) = 8 ∧
+    capacity (.stack t) = 0 := ⟨rfl, rfl, rfl, rfl⟩
+
+/-! ### the hypotheses are satisfiable -/
+
+/-- `{5, 1000, 30000}` is within both budgets -/
+example : InBudget codec64 [5, 1000, 30000] ∧ InBudget codec32 [5, 1000, 30000] :=
+  ⟨⟨by decide, by decide, ⟨by decide, by decide, by decide, trivial⟩, by decide⟩,
+   ⟨by decide, by decide, ⟨by decide, by decide, by decide, trivial⟩, by decide⟩⟩
+/-- an unsorted input with a duplicate whose distinct items are in budget -/
+example : InBudget codec64 (sortDedup [5, 3, 5, 1000]) := by
+  rw [Demo.sortDedup_small]; exact ⟨by decide, by decide, ⟨by decide, by decide, by decide, trivial⟩, by decide⟩
+/-- a well-formed inline value, a member of it, and an in-budget remainder -/
+example : StackWF cfg64 ⟨3, 69946533860081667⟩ ∧ 5 ∈ T.members codec64 ⟨3, 69946533860081667⟩ ∧
+    InBudget codec64 ((T.members codec64 ⟨3, 69946533860081667⟩).filter (· ≠ 5)) :=
+  ⟨Demo.inline64_wf, by decide, ⟨by decide, by decide, ⟨by decide, by decide, trivial⟩, by decide⟩⟩
+
 end C10
+
+#print axioms C10.collect_is_inline_u64
+#print axioms C10.collect_is_inline_u32
+#print axioms C10.ascending_is_inline_u64
+#print axioms C10.ascending_is_inline_u32
+#print axioms C10.ascending_final_u64
+#print axioms C10.remove_stays_inline_u64
+#print axioms C10.remove_only_member_u64
